@@ -232,9 +232,12 @@ def with_inject(base, injections, decisions, tag):
 def run_one(sc):
     """worker: execute one scenario on the real RunEngine, return (id, events, summary) -- never raises"""
     from harness.scen import Scenario
+    import contextlib
+    import io
     try:
-        s = Scenario(sc)
-        ev = s.run()
+        with contextlib.redirect_stdout(io.StringIO()):     # (bluesky prints progress messages from several threads)
+            s = Scenario(sc)
+            ev = s.run()
         return {"id": sc["id"], "events": normalise(ev), "points": s.points, "outcomes": s.outcomes,
                 "final": s.final_state, "sched": s.rec.sched,
                 "error": "the execution exceeded the harness's hard time limit without the loop ever being quiescent" if getattr(s, "stalled", False) else None}
